@@ -37,6 +37,9 @@ type crashOp struct {
 }
 
 func (o crashOp) String() string {
+	if len(o.Coll) > 48 {
+		o.Coll = fmt.Sprintf("%s...<%d bytes>", o.Coll[:8], len(o.Coll))
+	}
 	switch o.Kind {
 	case "Insert", "InsertBig":
 		return fmt.Sprintf("%s(%q, %d docs)", o.Kind, o.Coll, len(o.Docs))
@@ -324,7 +327,7 @@ func crashHistory(seed uint64) []crashOp {
 			for k := range ds {
 				ds[k] = map[string]any{"_id": r.UUID(), "a": int64(r.Intn(9)), "s": "imp"}
 			}
-			add(crashOp{Kind: "ImportCollection", Coll: gen.Pick(r, []string{"i1", "i2", "c2"}), Docs: ds})
+			add(crashOp{Kind: "ImportCollection", Coll: gen.Pick(r, []string{"i1", "i2", "c2", "I" + strings.Repeat("n", 519)}), Docs: ds})
 		}
 	}
 	return ops
